@@ -151,7 +151,7 @@ def run(ctx):
                                                                          dict(recorded_trace_line=open(tf).read().splitlines()[5])],
                evaluations=ops + nlines, distinct_nontrivial=len(cases),
                rule="every history of 3 list operations (14 operations x arguments, 5 start lists; 841k) and 3 (thorough 4) dictionary operations "
-                    "(8 operations, 4 start dictionaries) from ZnColl - quick replays a TLC-seeded 1/20 (list) and 1/3 (dict) of them - is turned into one Zn program that displays "
+                    "(8 operations, 4 start dictionaries) from ZnColl - quick replays a TLC-seeded 1/20 (list) and 1/3 (dict) of them, thorough 1/4 and 1/12 of the 4-operation dictionary histories (JSON volume) - is turned into one Zn program that displays "
                     "the reply, the collection, its length, text form / 所有索引 / 所有值 / generated JSON after every step and iterates over it at the "
                     "end; %d dictionary literals over <=4 keys incl. every pattern of repeated keys (ZnEval: first position, last value) followed by keyed writes; invariants and laws are also checked to length 8 with a VIEW; %d random histories of %d operations over 9 values / 8 keys are "
                     "RECORDED from value.Array/value.HashMap and validated by TLC against Trace_ZnColl (accepted=%s)" % (len(lprogs), nh, ln, accepted),
